@@ -35,7 +35,10 @@ class Recorder:
         if n == self.flush_at and self.file is not None and op != "close":
             self.file.flush()
         if n == self.crash_at:
-            os._exit(17)
+            if os.environ.get("VERIF_CRASH_MODE", "kill") == "kill":
+                os._exit(17)                      # the process is killed
+            raise KeyboardInterrupt("injected")   # the writer is interrupted: the stack unwinds, the
+                                                  # interpreter shuts down normally (HDF5 flushes its files)
 
 
 class AttrsProxy:
@@ -146,6 +149,18 @@ def scenario(name, path):
         pt = ancilla_pt(n, with_caps="nocaps" not in name, transforms=name.endswith("T"))
         pt.export(path, overwrite="over" in name)
         return
+    if name.startswith("ptcompute"):
+        # the pt_tempo_compute() shortcut with a file-backed process tensor
+        from harness import probes
+        n = int(name[9])
+        dt = 0.25
+        sd = probes.make_probe_sd(probes.probe_weights(3, 16, scale=3e-2), dt)
+        bath = oqupy.Bath(np.diag([0.5, -0.5]), sd)
+        params = oqupy.TempoParameters(dt=dt, epsrel=1e-12, dkmax=2)
+        pt = oqupy.pt_tempo_compute(bath, 0.0, n * dt + dt / 4, parameters=params, process_tensor_file=path,
+                                    progress_type="silent")
+        pt.close()
+        return
     if name.startswith("pttempo"):
         from harness import probes
         n = int(name[7])
@@ -170,7 +185,10 @@ def main():
     ptmod.h5py = H5Proxy(real, rec)
     import warnings
     warnings.simplefilter("ignore")
-    scenario(scen, path)
+    try:
+        scenario(scen, path)
+    except KeyboardInterrupt:
+        sys.exit(17)
     if trace_out != "-":
         with open(trace_out, "w") as f:
             json.dump(rec.events, f)
